@@ -69,6 +69,9 @@ def check_criteria(case):
     y = np.array(case["y"], dtype=np.float64)
     n = len(y)
     w = np.array(case["w"], dtype=np.float64)
+    if kind != "linear" and not bool(np.all(w == 1)):
+        # importance weights of any magnitude: every quantity of the statement is a ratio of weighted sums
+        w = w * float(case.get("wscale", 1.0))
     X = np.ascontiguousarray(np.array(case["X"], dtype=np.float64).reshape(n, -1))
     samples = np.array(case["order"], dtype=np.intp)
     ys = np.ascontiguousarray(y.reshape(n, 1))
@@ -132,7 +135,7 @@ def check_criteria(case):
     ident = list(case["order"]) == list(range(n))
     return Outcome([kind, "identity-order" if ident else "permuted", "candidates" if case["candidates"] else "direct",
                     "n=1" if n == 1 else ("n<=4" if n <= 4 else "n>4"), "cond-skipped" if skipped else "all-compared",
-                    "unit-weights" if bool(np.all(w == 1)) else "weights"], n >= 2)
+                    "unit-weights" if bool(np.all(w == 1)) else "weights", "wscale=%g" % case.get("wscale", 1.0)], n >= 2)
 
 
 _yv = st.integers(-64, 64).map(lambda v: v / 8.0)
@@ -169,7 +172,7 @@ def _crit_cases(draw, tier="quick"):
     if draw(st.integers(0, 4)) == 0:
         order = list(range(n))
     return dict(kind=kind, y=y, w=w, X=X, order=order, candidates=draw(st.booleans()), skew=draw(st.integers(0, 3)),
-                reinit=[draw(st.integers(0, n - 1)), draw(st.integers(1, n))])
+                reinit=[draw(st.integers(0, n - 1)), draw(st.integers(1, n))], wscale=draw(st.sampled_from([1.0, 1.0, 1e-13, 1e-6, 1e6])))
 
 
 def _perm_cases(tier):
@@ -195,7 +198,7 @@ def check_model(case):
     crit = case["criterion"]
     w = None
     if crit == "simple" and case["w"] is not None:
-        w = np.array(case["w"][:n], dtype=np.float64)
+        w = np.array(case["w"][:n], dtype=np.float64) * float(case.get("wscale", 1.0))
     facts = dict(criterion=crit, n=n, d=d, max_depth=case["max_depth"], min_samples_leaf=case["min_samples_leaf"])
     m = _PTR(criterion=crit, max_depth=case["max_depth"], min_samples_leaf=case["min_samples_leaf"], random_state=0)
     X0, y0 = X.copy(), y.copy()
@@ -284,7 +287,8 @@ def _model_cases(draw, tier="quick"):
                 min_samples_leaf=draw(st.integers(1, 8)),
                 w=draw(st.one_of(st.none(), st.lists(st.integers(1, 16).map(lambda v: v / 4.0), min_size=60, max_size=60))),
                 Q=[[draw(st.integers(-36, 36)) / 4.0 for _ in range(d)] for _ in range(mq)],
-                bad_first=draw(st.sampled_from([None, None, None, "nan-y", "short-weights", "negative-depth"])))
+                bad_first=draw(st.sampled_from([None, None, None, "nan-y", "short-weights", "negative-depth"])),
+                wscale=draw(st.sampled_from([1.0, 1.0, 1e-13, 1e6])))
 
 
 CLAUSES = [
